@@ -113,8 +113,8 @@ def run():
 
 def selftest():
     path = os.path.join(vlib.OUT, "selftest-c09.ndjson")
-    vlib.write_ndjson(path, [{"ev": "line", "text": "+a.z,1.2.3.4", "t1": "+a.z,1.2.3.4,,,,1", "t2": "+a.z,1.2.3.4,,,,1", "same": False, "err": ""},
-                             {"ev": "line", "text": "+a.z,1.2.3.4", "t1": "+a.z,1.2.3.4,,,,1", "t2": "+a.z,1.2.3.4,,,,1", "same": True, "err": ""}])
+    vlib.write_ndjson(path, [{"ev": "line", "text": "+a.z,1.2.3.4", "t1": "+a.z,1.2.3.4,,,,1", "t2": "+a.z,1.2.3.4,,,,1", "t1c": "+a.z,1.2.3.4,,,,1", "same": False, "err": ""},
+                             {"ev": "line", "text": "+a.z,1.2.3.4", "t1": "+a.z,1.2.3.4,,,,1", "t2": "+a.z,1.2.3.4,,,,1", "t1c": "+a.z,1.2.3.4,,,,1", "same": True, "err": ""}])
     r = tv("LineTrace", path)
     return [x[0] for x in r["rejects"]] == [1]
 
